@@ -12,9 +12,15 @@ var ruxSites = []string{
 	"lock", "lock.wait",
 }
 
+// preSites: before every statement of the named file, in the instrumented copy of rux only (instr/)
+var preSites = []string{
+	"p.context", "p.context_binding", "p.context_render", "p.dispatch", "p.extends", "p.middleware", "p.parse_match",
+	"p.response_wirter", "p.route", "p.route_cache", "p.router", "p.rux", "p.utils",
+}
+
 var harnessSites = []string{"h.enter", "h.act", "h.next", "h.leave", "w.call", "client.next", "cop"}
 
-var siteNames = append(append([]string{}, ruxSites...), harnessSites...)
+var siteNames = append(append(append([]string{}, ruxSites...), harnessSites...), preSites...)
 
 var (
 	siteHEnter     = siteIndex("h.enter")
@@ -43,6 +49,9 @@ func ruxYield(site string) {
 	i := siteIndex(site)
 	if i < 0 {
 		return // unknown site (a change under test added one): never scheduled on
+	}
+	if shIsQuiet() {
+		return
 	}
 	taskCacheAdd(i)
 	if shCur() < 0 {
@@ -75,24 +84,89 @@ type Sched struct {
 	Deadlock bool
 	waiting  [maxTasks]bool
 	doneCh   [maxTasks]chan struct{}
+	spin     int // consecutive picks among tasks that all wait for the lock
+	points   []PPoint
+	preRng   *Rng
+	preRate  int
 }
+
+// newSched builds the scheduler for a scenario: the schedule list, or (statement-level
+// preemption) explicit points and/or a seeded random walk.
+func newSched(sc *Scenario, maxSteps int) *Sched {
+	s := &Sched{schedule: sc.Schedule, MaxSteps: maxSteps, points: sc.Points}
+	if sc.Pre {
+		s.MaxSteps = 20*maxSteps + 4000
+		if sc.PreRate > 0 {
+			s.preRate = sc.PreRate
+			s.preRng = NewRng(sc.PreSeed, 0x9e3779b97f4a7c15, 0)
+		}
+	}
+	return s
+}
+
+// Switches returns the executed schedule as explicit points.
+func (s *Sched) Switches() []PPoint {
+	var out []PPoint
+	prev := -1
+	for i, st := range s.Steps {
+		if st.Task != prev {
+			out = append(out, PPoint{i, st.Task})
+		}
+		prev = st.Task
+	}
+	return out
+}
+
+// firstSwitches: the switches of the first multi-task run since the last reset (the history run of a check)
+var firstSwitches []PPoint
+var firstSwitchesSet bool
 
 func (s *Sched) pick() int {
 	c := s.pickRaw()
 	if c >= 0 && s.waiting[c] {
 		// c spins on a taken lock: let a task that can make progress run (round robin behind c)
-		for k := 1; k <= s.n; k++ {
+		for k := 1; k < s.n; k++ {
 			o := (c + k) % s.n
 			if !s.done[o] && !s.waiting[o] {
 				return o
 			}
 		}
-		s.Deadlock = true // every unfinished task waits for a lock
+		// Every unfinished task was last seen waiting for the lock. Its holder may have released it
+		// and finished since, so each of them tries again in turn; when two full rounds bring nobody
+		// past the lock it was leaked.
+		s.spin++
+		if s.spin > 2*s.n {
+			s.Deadlock = true
+			return c
+		}
+		from := s.last
+		if from < 0 {
+			from = c
+		}
+		for k := 1; k <= s.n; k++ {
+			o := (from + k) % s.n
+			if !s.done[o] {
+				return o
+			}
+		}
 	}
 	return c
 }
 
 func (s *Sched) pickRaw() int {
+	if len(s.points) > 0 {
+		step := len(s.Steps)
+		for _, pt := range s.points {
+			if pt.At == step && pt.To >= 0 && pt.To < s.n && !s.done[pt.To] {
+				return pt.To
+			}
+		}
+	}
+	if s.preRate > 0 && s.n > 1 && s.preRng.Intn(s.preRate) == 0 {
+		if c := s.preRng.Intn(s.n); !s.done[c] {
+			return c
+		}
+	}
 	for s.pos < len(s.schedule) {
 		c := s.schedule[s.pos]
 		s.pos++
@@ -168,9 +242,13 @@ func (s *Sched) Run(enabled []string, bodies []func()) bool {
 			s.Steps = append(s.Steps, StepRec{t, site})
 			s.waiting[t] = site == siteLockWait
 		}
+		if kind == msgDone || site != siteLockWait {
+			s.spin = 0
+		}
 		if s.Deadlock {
 			s.Overrun = true
 			shSetActive(false)
+			s.noteSwitches()
 			return false
 		}
 		if s.Between != nil {
@@ -179,11 +257,19 @@ func (s *Sched) Run(enabled []string, bodies []func()) bool {
 		if s.MaxSteps > 0 && len(s.Steps) > s.MaxSteps && remaining > 0 {
 			s.Overrun = true
 			shSetActive(false)
+			s.noteSwitches()
 			return false
 		}
 	}
 	shSetActive(false)
+	s.noteSwitches()
 	return true
+}
+
+func (s *Sched) noteSwitches() {
+	if s.n > 1 && !firstSwitchesSet {
+		firstSwitches, firstSwitchesSet = s.Switches(), true
+	}
 }
 
 func siteEnabledBy(enabled []string, name string) bool {
